@@ -110,3 +110,29 @@ def h_gcmkw_fields():
 
 
 HARNESSES = [h_accepts_any_spelling, h_concat_kdf_other_info, h_pbes2_inputs, h_rsa_paddings, h_gcmkw_fields, h_compress_is_raw_deflate]
+
+
+def h_json_aad_is_authenticated():
+    """RFC 7516 5.1 step 14: with a JWE AAD (JSON serializations) the AEAD additional data is
+    ASCII(BASE64URL(protected) '.' BASE64URL(aad)) -- for the flattened AND the general form."""
+    from joserfc.jwe import FlattenedJSONEncryption, GeneralJSONEncryption
+    form = sym_choice("form", ["flattened", "general"])
+    aad = sym_bytes("aad")
+    assume(len(aad) > 0)
+    protected = {"enc": "A128GCM"}
+    k = sym_bytes("k")
+    assume(len(k) == 16)
+    key = OctKey.import_key(k)
+    obj = (FlattenedJSONEncryption if form == "flattened" else GeneralJSONEncryption)(dict(protected), sym_bytes("p"), None, aad)
+    obj.add_recipient({"alg": "A128KW"}, key)
+    out = call(jwe.encrypt_json, obj, None, ["A128KW", "A128GCM"])
+    check(out.returned, "JSON encryption with AAD returns")
+    if out.returned and not is_native():
+        evs = crypto_events(out, "gcm_encrypt")
+        check(len(evs) == 1, "exactly one content encryption")
+        expect = spec_b64u(spec_utf8(spec_jsonc(protected))) + b"." + spec_b64u(aad)
+        check(py_eq(evs[0][2], expect), "AEAD additional data = ASCII(BASE64URL(UTF8(protected)) '.' BASE64URL(JWE AAD))")
+        check(py_eq(out.value.get("aad"), spec_b64u(aad).decode("ascii")), "the aad member carries BASE64URL(JWE AAD)")
+
+
+HARNESSES.append(h_json_aad_is_authenticated)
